@@ -27,19 +27,20 @@ const modPath = "github.com/nulab/autog"
 const posctlPrefix = "zz_verif_posctl"
 
 type Model struct {
-	RepoDir string
-	Tags    string
-	Fset    *token.FileSet
-	Pkgs    []*packages.Package // module packages, sorted by path
-	ByPath  map[string]*packages.Package
-	Prog    *ssa.Program
-	SSAPkg  map[string]*ssa.Package
-	Funcs   []*ssa.Function // every module function with a body (incl. literals, generic instances, wrappers), sorted
-	Src     []*ssa.Function // Funcs without synthetic wrappers/thunks (one per source function, literal or instance)
-	CG      *callgraph.Graph
-	CHA     *callgraph.Graph
-	Reach   map[*ssa.Function]bool // reachable from the root set through VTA
-	Roots   []*ssa.Function
+	RepoDir     string
+	Tags        string
+	Fset        *token.FileSet
+	Pkgs        []*packages.Package // module packages, sorted by path
+	ByPath      map[string]*packages.Package
+	Prog        *ssa.Program
+	SSAPkg      map[string]*ssa.Package
+	Funcs       []*ssa.Function // every module function with a body (incl. literals, generic instances, wrappers), sorted
+	Src         []*ssa.Function // Funcs without synthetic wrappers/thunks (one per source function, literal or instance)
+	CG          *callgraph.Graph
+	CHA         *callgraph.Graph
+	Reach       map[*ssa.Function]bool // reachable from the root set through VTA
+	layoutReach map[*ssa.Function]bool
+	Roots       []*ssa.Function
 
 	// typed AST indexes
 	Decl     map[*types.Func]*ast.FuncDecl
@@ -456,4 +457,59 @@ func (m *Model) Callees(site ssa.CallInstruction) []*ssa.Function {
 	}
 	sort.Slice(out, func(i, j int) bool { return out[i].String() < out[j].String() })
 	return out
+}
+
+// LayoutReach: the functions that can run during autog.Layout: everything reachable from the functions of the root package
+// (Layout itself and the option constructors, whose closures Layout invokes) through resolved calls (VTA, with CHA for
+// interface dispatch such as Source.Populate), plus the closures created by reachable functions.
+func (m *Model) LayoutReach() map[*ssa.Function]bool {
+	if m.layoutReach != nil {
+		return m.layoutReach
+	}
+	reach := map[*ssa.Function]bool{}
+	var stack []*ssa.Function
+	for _, f := range m.Funcs {
+		if pkgPathOf(f) == modPath && !m.FuncIsPosctl(f) {
+			stack = append(stack, f)
+		}
+	}
+	for len(stack) > 0 {
+		f := stack[len(stack)-1]
+		stack = stack[:len(stack)-1]
+		if reach[f] || f == nil {
+			continue
+		}
+		reach[f] = true
+		for _, b := range f.Blocks {
+			for _, in := range b.Instrs {
+				switch x := in.(type) {
+				case *ssa.MakeClosure:
+					if fn, ok := x.Fn.(*ssa.Function); ok {
+						stack = append(stack, fn)
+					}
+				case ssa.CallInstruction:
+					stack = append(stack, m.Callees(x)...)
+					if m.CHA != nil && x.Common().IsInvoke() {
+						if n := m.CHA.Nodes[f]; n != nil {
+							for _, e := range n.Out {
+								if e.Site == x {
+									stack = append(stack, e.Callee.Func)
+								}
+							}
+						}
+					}
+				}
+				// function values that are passed around (method values, named functions used as callbacks)
+				for _, op := range in.Operands(nil) {
+					if op != nil && *op != nil {
+						if fn, ok := (*op).(*ssa.Function); ok {
+							stack = append(stack, fn)
+						}
+					}
+				}
+			}
+		}
+	}
+	m.layoutReach = reach
+	return reach
 }
